@@ -324,8 +324,21 @@ def rule_wiring(ctx, res):
               'build no longer selects the token minifier', b.loc)
 
 
+def rule_instance_state(ctx, res, rule_id='R-C01-transducer'):
+    from . import memo
+    for q, what in (
+            ('pico8.lua.lua:MinifyNameFactory',
+             'names handed out while minifying one cart are reused for the '
+             'next cart in the same process and collide with its fresh '
+             'names'),
+            ('pico8.lua.lua:LuaMinifyTokenWriter',
+             'one minification run sees the state of another')):
+        memo.rule_instance_state(ctx, res, rule_id, q, what)
+
+
 def run(ctx, res):
     mm = MinifierModel(ctx)
+    rule_instance_state(ctx, res)
     rule_transducer(ctx, res, mm)
     rule_noglue(ctx, res, mm)
     rule_wiring(ctx, res)
